@@ -11,6 +11,7 @@ import (
 
 	"github.com/miekg/dns"
 	"github.com/semihalev/sdns/config"
+	icache "github.com/semihalev/sdns/internal/cache"
 	"github.com/semihalev/sdns/internal/verif/vlib"
 	"github.com/semihalev/sdns/middleware/cache"
 )
@@ -138,6 +139,35 @@ func execCAS(f []string) vlib.Res {
 // before the Set (after it the captured entry is gone), so the client's
 // value must be the one that stays, and at most one refresh may succeed.
 func casStress(s *casT, rounds, k int) vlib.Res {
+	// Keep the key's lock segment busy with ordinary admissions of other keys (what a loaded
+	// cache looks like): it stretches any window between a compare and the write that follows it.
+	pos := cache.VerifC04Positive(s.c)
+	neighbours := icache.VerifC04SameSegment(pos, s.key, 32)
+	filler, _ := cache.VerifC04Peek(s.c, s.key)
+	var stop atomic.Bool
+	var noise sync.WaitGroup
+	if procs := runtime.GOMAXPROCS(0); procs < 4 {
+		defer runtime.GOMAXPROCS(runtime.GOMAXPROCS(4))
+	}
+	for w := 0; w < 4; w++ {
+		noise.Add(1)
+		go func(w int) {
+			defer noise.Done()
+			for i := w; !stop.Load(); i++ {
+				if filler.Entry != nil {
+					pos.Add(neighbours[i%len(neighbours)], filler.Entry)
+				}
+				runtime.Gosched()
+			}
+		}(w)
+	}
+	defer func() {
+		stop.Store(true)
+		noise.Wait()
+		for _, n := range neighbours {
+			pos.Remove(n)
+		}
+	}()
 	bad := ""
 	for r := 0; r < rounds && bad == ""; r++ {
 		s.st.SetFromResponseWithKey(s.key, casResp(s.q, 300, 1), time.Time{}, 0)
@@ -147,6 +177,9 @@ func casStress(s *casT, rounds, k int) vlib.Res {
 			break
 		}
 		e0 := v.Entry
+		if filler.Entry == nil {
+			filler = v
+		}
 		var wg sync.WaitGroup
 		var wins atomic.Int32
 		start := make(chan struct{})
@@ -155,9 +188,6 @@ func casStress(s *casT, rounds, k int) vlib.Res {
 			go func(i int) {
 				defer wg.Done()
 				<-start
-				if i%2 == 1 {
-					runtime.Gosched()
-				}
 				if s.st.ReplaceIfCurrent(s.key, e0, casResp(s.q, 200, 2), time.Time{}, 0) {
 					wins.Add(1)
 				}
@@ -167,9 +197,6 @@ func casStress(s *casT, rounds, k int) vlib.Res {
 		go func() {
 			defer wg.Done()
 			<-start
-			if r%3 != 0 {
-				runtime.Gosched()
-			}
 			s.st.SetFromResponseWithKey(s.key, casResp(s.q, 100, 3), time.Time{}, 0)
 		}()
 		close(start)
